@@ -216,6 +216,14 @@ func (cr *cliRunner) runTreeRemote(id int64, tl *treeLine, root string, maps []M
 		if row.Diff.K != "err-or-diff" {
 			chk("diff (destination side)", l, r)
 		}
+		cr.note(ri, "diff-both")
+		l, r = cr.runBoth(e, srv, reset, "diff", func(base string) (cmd.Command, *string) {
+			c := &cmd.DiffCommand{SrcBase: base, SrcRelPath: "src/item1/s1.wsp", DestBase: base, DestRelPath: "dst/item1/d.wsp", From: from, Until: until, ArchiveID: arch}
+			return c, &c.TextOut
+		}, "")
+		if row.Diff.K != "err-or-diff" {
+			chk("diff (both sides)", l, r)
+		}
 		cr.note(ri, "copy")
 		l, r = cr.runBoth(e, srv, reset, "copy", func(base string) (cmd.Command, *string) {
 			c := &cmd.CopyCommand{SrcBase: base, SrcRelPath: "src/item1/s1.wsp", DestBase: e.root, DestRelPath: "dst/item1/d.wsp",
